@@ -68,6 +68,19 @@ func (s *Sig) render(tag string) string {
 		}
 	case "if":
 		stmt = "if (true) { " + s.What + " }"
+	case "forin":
+		stmt = "for (sq in [1, 2]) { " + s.What + " }"
+	case "while":
+		stmt = "while (true) { " + s.What + " }"
+	case "match":
+		stmt = "match (1) { 1 => { " + s.What + " } }"
+	case "func2":
+		// two frames deep, from inside a loop in the callee
+		if s.What == "next" {
+			stmt = "sigN2()"
+		} else {
+			stmt = "sigX2()"
+		}
 	default:
 		stmt = s.What
 	}
@@ -84,6 +97,8 @@ const traceFuncs = `function show(v) {
 }
 function sigN() { next }
 function sigX() { exit }
+function sigN2() { for (sr in [1]) { sigN() } }
+function sigX2() { for (sr in [1]) { sigX() } }
 `
 
 // Render produces the jqawk source of a trace program.
